@@ -33,8 +33,22 @@ fn boundary_chain() -> Vec<BlockSpec> {
     blocks.push(txs);
     // block 4: more than 252 transactions (tx count needs a 3-byte CompactSize)
     blocks.push((0..260).map(|i| TxSpec::new(vec![TxIn::new(idn(), i, vec![])], vec![TxOut::new(i as u64, vec![0x51])])).collect());
+    // block 5: arbitrary u32 / u64 values in every numeric field (high bits set, zero, max)
+    let mut txs = vec![];
+    for i in 0..(if thorough { 120 } else { 24 }) {
+        let pick32 = |r: &mut Rng| -> u32 { match r.below(5) { 0 => 0, 1 => u32::MAX, 2 => 0x8000_0000, 3 => 0x7fff_ffff, _ => r.next() as u32 } };
+        let pick64 = |r: &mut Rng| -> u64 { match r.below(5) { 0 => 0, 1 => u64::MAX, 2 => 1 << 63, 3 => 21_000_000 * 100_000_000, _ => r.next() } };
+        let nin = 1 + rng.below(3) as usize; let nout = 1 + rng.below(3) as usize;
+        let mut t = TxSpec::new((0..nin).map(|j| { let mut x = TxIn::new(idn(), pick32(&mut rng), rng.bytes(j * 7)); x.seq = pick32(&mut rng); x }).collect(),
+                                (0..nout).map(|j| TxOut::new(pick64(&mut rng), if j == 0 { p2pkh_script(&[i as u8; 20]) } else { rng.bytes(j * 3) })).collect());
+        t.version = pick32(&mut rng); t.locktime = pick32(&mut rng);
+        if i % 3 == 0 { t.witness = Some((0..nin).map(|j| (0..j).map(|q| rng.bytes(q * 40)).collect()).collect()); }
+        txs.push(t);
+    }
+    blocks.push(txs);
     let mut it = blocks.into_iter();
-    let mut chain = make_chain(5, &mut |h| if h == 0 { vec![] } else { it.next().unwrap() });
+    let mut chain = make_chain(6, &mut |h| if h == 0 { vec![] } else { it.next().unwrap() });
+    chain[5].version = 0xffff_fffe; chain[5].time = u32::MAX; chain[5].bits = 0x8000_0001; chain[5].nonce = 0x8000_0000;
     chain[2].tx_count_width = 5; chain[2].version = 0x2000_0000; chain[2].bits = u32::MAX; chain[2].time = 0;
     // a byte-identical coinbase in two blocks (legal before BIP34, e.g. mainnet 91722 / 91880): still one row each
     chain[4].txs[0] = chain[1].txs[0].clone();
@@ -49,32 +63,35 @@ fn c01_csvdump_rows_match_disk() {
     let chain = boundary_chain();
     let d = simple_dir(&chain); d.write();
     let mut cases = 0;
-    for (coin, verify) in [("bitcoin", false), ("litecoin", false), ("bitcoin", true)] {
+    let mut runs = vec![("bitcoin", false), ("litecoin", false), ("bitcoin", true)];
+    if thorough() { runs.extend([("testnet3", false), ("myriadcoin", true), ("unobtanium", false), ("noteblockchain", false)]); }
+    for (coin, verify) in runs {
         let s = if verify { 1 } else { 0 };
-        let blocks = match fetch_blocks(d.path(), coin, s, 4, verify) { Ok(b) => b, Err(m) => { fail(suite, "C01:well_formed_chain_parses", &format!("{} verify={}", coin, verify), &m, "Ok"); continue; } };
+        let blocks = match fetch_blocks(d.path(), coin, s, 5, verify) { Ok(b) => b, Err(m) => { fail(suite, "C01:well_formed_chain_parses", &format!("{} verify={}", coin, verify), &m, "Ok"); continue; } };
         let out = tempfile::tempdir().unwrap();
         let m = CsvDump::build_subcommand().get_matches_from(vec!["csvdump", out.path().to_str().unwrap()]);
         let mut cb = CsvDump::new(&m).unwrap();
         log_begin();
         cb.on_start(s).unwrap();
         for (i, b) in blocks.iter().enumerate() { cb.on_block(b, s + i as u64).unwrap(); }
-        cb.on_complete(4).unwrap();
+        cb.on_complete(5).unwrap();
         drop(cb);
         // totals printed on completion: "-> transactions: N", "-> inputs: N", "-> outputs: N"
         let lg = log_text();
         let num = |key: &str| -> i64 { lg.lines().find_map(|l| l.trim().strip_prefix(key).map(|r| r.trim().parse::<i64>().unwrap_or(-1))).unwrap_or(-2) };
         let (tc, ic, oc) = (num("-> transactions:"), num("-> inputs:"), num("-> outputs:"));
-        let rd = |n: &str| csv_lines(&out.path().join(format!("{}-{}-4.csv", n, s)));
+        let rd = |n: &str| csv_lines(&out.path().join(format!("{}-{}-5.csv", n, s)));
         let (gb, gt, gi, go) = (rd("blocks"), rd("transactions"), rd("tx_in"), rd("tx_out"));
         let (mut wb, mut wt, mut wi, mut wo) = (vec![], vec![], vec![], vec![]);
-        for h in s..=4 { let b = &chain[h as usize];
+        for h in s..=5 { let b = &chain[h as usize];
             let raw_len = b.ser().len();
             wb.push(format!("{};{};{};{};{};{};{};{};{}", hex_rev(&b.hash()), h, b.version, raw_len, hex_rev(&b.prev), hex_rev(&b.merkle_root()), b.time, b.bits, b.nonce));
             for t in &b.txs { let id = hex_rev(&t.txid());
                 wt.push(format!("{};{};{};{}", id, hex_rev(&b.hash()), t.version, t.locktime));
                 for i in &t.inputs { wi.push(format!("{};{};{};{};{}", id, hex_rev(&i.prev_txid), i.prev_index, hex(&i.script_sig), i.seq)); }
                 for (n, o) in t.outputs.iter().enumerate() {
-                    let addr = if coin == "bitcoin" { addr_of(&o.script).or_else(|| wit_addr(&o.script)).unwrap_or_default() } else { fork_addr(&o.script, 0x30) };
+                    let addr = match coin { "bitcoin" => addr_of(&o.script).or_else(|| wit_addr(&o.script)).unwrap_or_default(), "testnet3" => tn_addr(&o.script),
+                        _ => fork_addr(&o.script, coin.parse::<crate::blockchain::parser::types::CoinType>().unwrap().version_id) };
                     wo.push(format!("{};{};{};{};{}", id, n, o.value, hex(&o.script), addr)); }
             } }
         let inp = format!("{} verify={}", coin, verify);
@@ -96,6 +113,12 @@ fn wit_addr(s: &[u8]) -> Option<String> {
         return Some(bitcoin::Address::from_witness_program(p, bitcoin::Network::Bitcoin).to_string());
     }
     None
+}
+fn tn_addr(s: &[u8]) -> String {
+    let n = s.len();
+    if n == 25 && s[0] == 0x76 && s[1] == 0xa9 && s[2] == 0x14 && s[23] == 0x88 && s[24] == 0xac { return b58check(0x6f, &s[3..23]); }
+    if n == 22 && s[0] == 0 && s[1] == 0x14 { if let Ok(p) = bitcoin::WitnessProgram::new(bitcoin::WitnessVersion::V0, &s[2..]) { return bitcoin::Address::from_witness_program(p, bitcoin::Network::Testnet).to_string(); } }
+    String::new()
 }
 /// fork coins (custom evaluator): P2PKH / P2PK / P2SH templates of the shapes used here
 fn fork_addr(s: &[u8], ver: u8) -> String {
